@@ -80,7 +80,8 @@ func genC07(seed uint64, tier string, prop string) Case {
 			if prop == "C30" {
 				idx = []int64{3, 3, 3, 0, 1}[r.intn(5)]
 			}
-			c.Ops = append(c.Ops, Op{K: "q", A: []int64{idx, int64(r.intn(2)), int64(r.intn(4)), int64(r.intn(5)), off(), off()}})
+			// the last argument picks the RPC: GetByIndex, GetByIndexStream or GetByIndexStreamFromMany (same parameters)
+			c.Ops = append(c.Ops, Op{K: "q", A: []int64{idx, int64(r.intn(2)), int64(r.intn(4)), int64(r.intn(5)), off(), off(), int64(r.pick(3, 2, 1))}})
 		case 3:
 			c.Ops = append(c.Ops, Op{K: "shiftexp", A: []int64{int64(r.intn(4))}})
 		case 4:
@@ -522,14 +523,37 @@ func (g *idxRun) query(i int, op Op, sw string) *Result {
 			req.ToTime = timestamppb.New(time.Unix(0, toT))
 		}
 	}
-	var resp *hydrapb.GetByIndexResponse
+	resp := &hydrapb.GetByIndexResponse{}
 	var err error
-	g.cl.call("GetByIndex", func() { resp, err = g.srv.gw.GetByIndex(ctxBg, req) })
+	via := int64(0)
+	if len(op.A) > 6 {
+		via = op.A[6]
+	}
+	switch via {
+	case 1:
+		st := &c08stream{ctx: ctxBg}
+		g.cl.call("GetByIndexStream", func() {
+			err = g.srv.gw.GetByIndexStream(&hydrapb.GetByIndexStreamRequest{IslandID: 1, SwampName: sw, IndexType: req.IndexType, OrderType: req.OrderType, From: req.From, Limit: req.Limit, FromTime: req.FromTime, ToTime: req.ToTime}, st)
+		})
+		for _, m := range st.got {
+			resp.Treasures = append(resp.Treasures, m.Treasure)
+		}
+	case 2:
+		st := &c10many{ctx: ctxBg}
+		g.cl.call("GetByIndexStreamFromMany", func() {
+			err = g.srv.gw.GetByIndexStreamFromMany(&hydrapb.GetByIndexStreamFromManyRequest{Queries: []*hydrapb.SwampQuery{{IslandID: 1, SwampName: sw, IndexType: req.IndexType, OrderType: req.OrderType, From: req.From, Limit: req.Limit, FromTime: req.FromTime, ToTime: req.ToTime}}}, st)
+		})
+		for _, m := range st.got {
+			resp.Treasures = append(resp.Treasures, m.Treasure)
+		}
+	default:
+		g.cl.call("GetByIndex", func() { resp, err = g.srv.gw.GetByIndex(ctxBg, req) })
+	}
 	if g.cl.hung != "" {
 		return nil
 	}
 	if err != nil || resp == nil {
-		return g.fail("get_by_index_error", "op %d: GetByIndex(%s): %v", i, idxNames[idx], err)
+		return g.fail("get_by_index_error", "op %d: GetByIndex(%s) via RPC variant %d: %v", i, idxNames[idx], via, err)
 	}
 	attr := func(r *mrec) int64 {
 		switch idx {
@@ -603,7 +627,7 @@ func (g *idxRun) query(i int, op Op, sw string) *Result {
 		return fmt.Sprint(rows)
 	}
 	fail := func(cls string) *Result {
-		return g.fail("index_"+idxNames[idx]+"_"+cls, "op %d: GetByIndex(%s desc=%v from=%d limit=%d window=[%+ds,%+ds)) returned %v, reference order gives %v; records: %s", i, idxNames[idx], desc, from, limit, op.A[4], op.A[5], got, page, describe())
+		return g.fail("index_"+idxNames[idx]+"_"+cls, "op %d: %s(%s desc=%v from=%d limit=%d window=[%+ds,%+ds)) returned %v, reference order gives %v; records: %s", i, []string{"GetByIndex", "GetByIndexStream", "GetByIndexStreamFromMany"}[via], idxNames[idx], desc, from, limit, op.A[4], op.A[5], got, page, describe())
 	}
 	if len(got) != len(page) {
 		return fail("wrong_record_count")
